@@ -5,7 +5,7 @@ import copy
 import pickle
 from fractions import Fraction as Fr
 import numpy as np
-from hypothesis import strategies as st
+from hypothesis import strategies as st, assume
 from vlib.runner import SubCheck
 
 PROPERTY = "C12"
@@ -35,6 +35,24 @@ RULE = ("Laws: generated boxes of dimension 1-4 (normal / point / flat / inverte
         "overwritten in place; planar (2-coordinate) points: a function that answers for them must agree with the same points "
         "embedded in z=0 and keep angle_3pts in [0,pi] (raising is accepted as 'unsupported'), about 1 case in 8 straddles the negative "
         "x axis; Python-int angles / coefficients; rotation axes within 1e-6 of unit length. "
+        "Sixth round (sub-check sharp_laws): the ill-conditioned end of the angle / triangle primitives. Corners ABC whose angle is within "
+        "2^-7 .. 2^-43 * 1/30 (about 1e-2 .. 1e-13 rad, log-uniform) of 0 or of pi: arms k*u+e_a and +-(k'*u+e_c) with u an integer vector of "
+        "full 7..43-bit mantissas ('full'), a short arm against a long one ('lever'), arms along a coordinate axis ('axis', most products "
+        "vanish); spatial or planar (one coordinate of both arms zero); all points are integers < 2^47 times one power of two 2^s, s in "
+        "{0, -q (arms of length O(1), offsets of 1e-3..1e-13), -10, -20, -43, -70, 20, 60}, so that A-B, C-B are exact in floating point and "
+        "every reference (dot, cross, circumcentre, line intersection) is a rational number evaluated with fractions.Fraction. Asserted with "
+        "tolerances equal to the first-order conditioning of each quantity times a safety factor (K_ANG, K_COT, K_CC; measured margin of the "
+        "library >= 30): angle_3pts / angle_2vec3D / angle_2vec2D / signed angles to 32 eps absolute (range, symmetry, antisymmetry, sign = "
+        "sign of the exact (V1xV2).N whenever that exceeds the rounding of the cross product, normal flip, signed_angle_3pts), cotan(A,B,C) "
+        "and cotan(C,B,A) to a relative 32 eps / sin(angle) against exact cos/sin and to twice that against 1/tan(angle_3pts), triangle_area "
+        "to 32 eps * (longest edge)^2, the circumcentre of the thin triangle ABC (every argument rotation) within 64 eps (R + |coords|) / "
+        "sin(smallest angle) of the exact rational circumcentre and equidistant within twice that, intersect_2lines2D of two near-parallel "
+        "lines within 64 eps * (|p1|+|p2|+distances to the intersection) / sin. maths_laws: angles of magnitude 1e4 .. 1e12 (log-uniform, "
+        "multiples of pi/2 up to 1e6 pi, multiples of 2pi up to 1e11 and their float neighbours; one pair in four is a large pair with a "
+        "difference <= 7), congruence judged in exact arithmetic modulo the float 2pi with a slack of k*(2pi - float(2pi)) (accepts "
+        "reductions modulo the real 2pi) plus the half-ulp roundings of the additions. non-trivial (sharp_laws): angle within 1e-6 of 0 / pi. "
+        "Lengths that a result does not depend on: the plane normal of project_to_plane and the axis of rotate_around_axis are multiplied "
+        "by 2^-30 / 2^-70 / 2^40 (3 cases in 8); uniform scales 2^-70 and 2^60 of the vector and angle laws (1 case in 6). "
         "Side effects: an operation history (2-25 ops over AABB.*, Vec.*, geometry.*, rotations.*, maths.* and a harness-level "
         "numpy.seterr change), arguments either fresh literals (list/tuple/float array/int array/Vec) or references to arrays "
         "and boxes created earlier in the same history (so boxes share caller arrays and other boxes' corners); about one op in "
@@ -42,7 +60,8 @@ RULE = ("Laws: generated boxes of dimension 1-4 (normal / point / flat / inverte
         "snapshot, numpy.geterr() with its previous value. non-trivial: (laws) the case is in the asserted, well-conditioned "
         "class of its sub-check; (history) a raising call is followed by at least one further call. distinct = distinct "
         "realised cases.")
-ASSUMPTIONS = ["coordinates are finite floats of magnitude <= 1e3 x a uniform scale in [2^-20, 2^20] (no overflow / underflow is probed); "
+ASSUMPTIONS = ["coordinates are finite floats of magnitude <= 1e3 x a uniform scale in [2^-20, 2^20] (boxes, triangles) or [2^-70, 2^60] (vectors, angles, "
+               "near-degenerate corners): no overflow / underflow of a product is probed; "
                "integer-typed inputs have magnitude <= 4096 (no int64 overflow of cubic expressions is probed)",
                "triangle functions are asserted for edge lengths >= 1e-4 (circumcenter inherits the absolute 1e-12 parallelism threshold "
                "of intersect_2lines2D and fails below a size of about 1e-6: observed, not asserted)",
@@ -52,9 +71,15 @@ ASSUMPTIONS = ["coordinates are finite floats of magnitude <= 1e3 x a uniform sc
                "setters) may change every array that shares memory with the receiver; AABB has value semantics: pad may change the "
                "receiver box only",
                "scalar padding is given as a float (docstring: 'float | iterable')",
-               "intersect_2lines2D / circumcenter use an absolute 1e-12 parallelism threshold: asserted for directions of norm in "
-               "[1e-2, 1e3] that are not near-parallel",
-               "axis_rot_from_z is asserted off the antiparallel direction (v within 1e-6 of -Z is labelled, not asserted)"]
+               "shape_laws: intersect_2lines2D / circumcenter have a 1e-12 parallelism threshold: asserted for directions of norm in "
+               "[1e-2, 1e3] that are not near-parallel (near-parallel lines and thin triangles: sharp_laws)",
+               "axis_rot_from_z is asserted off the antiparallel direction (v within 1e-6 of -Z is labelled, not asserted)",
+               "sharp_laws: circumcenter and intersect_2lines2D are asserted when the sine of the (smallest) angle is >= 1e-10: below its 1e-12 "
+               "parallelism threshold (relative to the direction lengths) intersect_2lines2D documents None and circumcenter raises - labelled, "
+               "not asserted; cotan is asserted while 32 eps / sin(angle) <= 1/4 (angles down to about 3e-14 rad; none smaller is generated); "
+               "a correct evaluation is taken to be backward stable up to a factor 32-64 (an acos-based angle, which loses half the digits "
+               "near 0 and pi, would be reported)",
+               "principal_angle / angle_diff: |arguments| <= 1e12; a result congruent modulo either the float or the real 2pi is accepted"]
 
 EPS = 2.0 ** -52
 
@@ -235,6 +260,7 @@ MODES = ["int", "int", "dyadic", "float", "float"]
 FORMS = ["list", "tuple", "f8", "f8", "vec", "vec", "i8", "ivec", "ilist", "ituple"]
 INT_FORMS = ["i8", "ivec", "ilist", "ituple"]
 SCALES = [1.0] * 6 + [2.0 ** -10, 2.0 ** -20, 2.0 ** 10, 2.0 ** 20]          # powers of two: exact modes stay exact
+VSCALES = SCALES + [2.0 ** -70, 2.0 ** 60]                                     # vectors / angles: also far from 1 (no product under- or overflows)
 
 
 def is_int_typed(o):
@@ -647,7 +673,7 @@ def vector_case(draw):
     B = {"free": None, "zero": [0.0, 0.0, 0.0], "equal": list(A)}.get(how) if how != "parallel" else [2.0 * x for x in A]
     if B is None:
         B = draw(v3)
-    s = draw(st.sampled_from(SCALES))
+    s = draw(st.sampled_from(VSCALES))
     return {"mode": mode, "A": scaled(A, s), "B": scaled(B, s), "C": scaled(draw(v3), s), "a": scaled(draw(vec_st(mode, 2)), s),
             "b": scaled(draw(vec_st(mode, 2)), s), "c": scaled(draw(vec_st(mode, 2)), s), "scale": s,
             "form": draw(st.sampled_from(FORMS)), "n": draw(st.integers(1, 6)), "set": draw(coord(mode))}
@@ -849,7 +875,7 @@ def shape_case(draw):
     SB = draw(st.one_of(v2, v2, v2, v2, st.just(None)))
     return {"mode": mode, "tri": scaled(draw(triangle_st(mode)), s), "p1": draw(v2), "d1": d1, "p2": draw(v2), "d2": d2, "dim3": draw(st.booleans()),
             "P": scaled(draw(v2), s), "SA": scaled(draw(v2), s), "SB": scaled(SB, s) if SB is not None else None,
-            "Q": scaled(draw(v3), s), "N": draw(v3), "O": scaled(draw(v3), s), "scale": s, "ityped": draw(st.integers(0, 3)) == 0,
+            "Q": scaled(draw(v3), s), "N": draw(v3), "nscale_exp": draw(st.sampled_from([0] * 5 + [-30, -70, 40])), "O": scaled(draw(v3), s), "scale": s, "ityped": draw(st.integers(0, 3)) == 0,
             "quad": quad, "plane": draw(st.integers(0, 2)), "level": draw(coord(mode))}
 
 
@@ -911,9 +937,13 @@ def fn_shape(case, ctx):
 
     # ---- projection onto a plane
     Q, N, O = case["Q"], case["N"], case["O"]
+    well_n = float(fdot(fv(N), fv(N))) >= 1e-8
+    if case.get("nscale_exp"):                          # the projection does not depend on the length of the normal: any power of two of it
+        N = [x * 2.0 ** case["nscale_exp"] for x in N]
+        ctx.label("normal-length=2^%d" % case["nscale_exp"])
     fQ, fN, fO = fv(Q), fv(N), fv(O)
     nn = fdot(fN, fN)
-    if float(nn) >= 1e-8:
+    if well_n:
         ok, R = gcall(ctx, "project_to_plane", geom.project_to_plane, V(Q), V(N), V(O))
         if ok:
             rv = vec_of(R, 3)
@@ -1021,7 +1051,7 @@ def angle_case(draw):
     V1 = draw(v3)
     how = draw(st.sampled_from(["free"] * 7 + ["parallel", "anti", "zero"]))
     V2 = {"parallel": [2.0 * x for x in V1], "anti": [-1.0 * x for x in V1], "zero": [0.0] * 3}.get(how) or draw(v3)
-    s = draw(st.sampled_from(SCALES))                 # every angle is scale invariant
+    s = draw(st.sampled_from(VSCALES))                # every angle is scale invariant
     return {"mode": mode, "V1": scaled(V1, s), "V2": scaled(V2, s), "N": draw(v3), "tri": scaled(draw(triangle_st(mode)), s),
             "u": scaled(draw(v2), s), "w": scaled(draw(v2), s), "scale": s, "ityped": draw(st.integers(0, 3)) == 0,
             "tri2": scaled(draw(tri2_st(mode)), s)}
@@ -1178,6 +1208,252 @@ def fn_angle(case, ctx):
                         ctx.check(abs(principal_angle(g) - real(s)) <= 1e-9, "angle_2vec2D:vs-3D", f"angle_2vec2D({u},{w}) = {g!r} but signed 3D angle about Z = {s!r}")
 
 
+# =============================================================================================== 4b. near-degenerate corners (exact data)
+# Corners whose angle is within 1e-2 .. 1e-13 rad of 0 or of pi, thin triangles. The points are integers times one power of two, so that
+# the differences A-B, C-B are exact in floating point and every reference (dot, cross, circumcentre) is a rational number evaluated
+# with fractions.Fraction. Each tolerance is the first-order conditioning of the asserted quantity under relative perturbations of size
+# eps of the two directions (what a backward-stable evaluation commits), times a safety factor K of 30-100 over what atan2 / cos-over-sin
+# / bisector-intersection evaluations were measured to commit on 80000 generated cases:
+#   angle (any of them)            absolute error       <= K_ANG  * eps                     (measured <= 2 eps)
+#   cotangent                      relative error       <= K_COT  * eps / sin(angle)        (measured <= 0.8 eps / sin)
+#   cotangent vs 1/tan(own angle)  relative difference  <= 2 K_COT * eps / sin(angle)       (measured <= 1.7 eps / sin)
+#   circumcentre                   distance to exact    <= K_CC   * eps * (R + |coords|) / sin(smallest angle)     (measured <= 0.6 of that with K=1)
+K_ANG, K_COT, K_CC = 32, 32, 64
+SHARP_SCALES = [0, 0, 0, "-q", "-q", -10, -20, -43, -70, 20, 60]
+
+
+@st.composite
+def sharp_case(draw):
+    q = draw(st.integers(7, 43))                                   # the angle is about 2^-q / 30 .. 2^-q * 30
+    cls = draw(st.sampled_from(["full", "full", "lever", "axis"]))
+    sgn = draw(st.sampled_from([1, -1]))                           # +1: angle near 0, -1: near pi
+    flat = draw(st.sampled_from([None, None, 0, 1, 2]))            # planar configuration: this coordinate of A-B, C-B is zero
+    small = st.integers(-6, 6)
+
+    def vec3(elem):
+        return [0 if i == flat else draw(elem) for i in range(3)]
+
+    ka, kc = draw(st.integers(1, 5)), draw(st.integers(1, 5))
+    if cls == "full":                                              # full mantissas: the float products of the coordinates are inexact
+        u = vec3(st.integers(-2 ** q, 2 ** q))
+        j = draw(st.sampled_from([i for i in range(3) if i != flat]))
+        u[j] = draw(st.sampled_from([1, -1])) * draw(st.integers(2 ** (q - 1), 2 ** q))
+        ea = vec3(small) if draw(st.booleans()) else [0, 0, 0]
+        ec = vec3(small)
+        if draw(st.integers(0, 2)) == 0:                           # needle: |BA| ~ |BC|
+            kc = ka
+        BA = [ka * x + y for x, y in zip(u, ea)]
+        BC = [sgn * (kc * x + y) for x, y in zip(u, ec)]
+    elif cls == "lever":                                           # one short and one long arm
+        d, e = vec3(small), vec3(small)
+        m = draw(st.integers(2 ** (q - 1), 2 ** q))
+        BA = [ka * x for x in d]
+        BC = [sgn * (m * x + y) for x, y in zip(d, e)]
+        if draw(st.booleans()):
+            BA, BC = BC, BA
+    else:                                                          # along a coordinate axis: most products vanish
+        j = draw(st.sampled_from([i for i in range(3) if i != flat]))
+        d = [draw(st.sampled_from([1, -1])) if i == j else 0 for i in range(3)]
+        e = vec3(small)
+        BA = [ka * 2 ** q * x for x in d]
+        BC = [sgn * (kc * 2 ** q * x + y) for x, y in zip(d, e)]
+    assume(any(fcross(BA, BC)))                                     # Python ints: exact
+    B = [draw(st.integers(-8, 8)) for _ in range(3)]
+    if flat is not None and draw(st.booleans()):
+        N = [draw(st.sampled_from([1, -1, 3, -2])) if i == flat else 0 for i in range(3)]
+    else:
+        N = [draw(small) for _ in range(3)]
+    P1, P2 = [draw(st.integers(-8, 8)) for _ in range(2)], [draw(st.integers(-8, 8)) for _ in range(2)]
+    sc = draw(st.sampled_from(SHARP_SCALES))
+    s = 2.0 ** (-q if sc == "-q" else sc)                          # exact: every coordinate is an integer below 2^47 times s
+    return {"A": [float(b + x) * s for b, x in zip(B, BA)], "B": [float(b) * s for b in B], "C": [float(b + x) * s for b, x in zip(B, BC)],
+            "N": [float(x) for x in N], "P1": [float(x) * s for x in P1], "P2": [float(x) * s for x in P2], "cls": cls, "q": q, "scale_exp": (-q if sc == "-q" else sc), "flat": flat,
+            "form": draw(st.sampled_from(["vec", "vec", "f8"]))}
+
+
+def fn_sharp(case, ctx):
+    from mouette import geometry as geom
+    A, B, C, N = case["A"], case["B"], case["C"], case["N"]
+    form = case.get("form", "vec")
+    V = lambda v: make(v, form)
+    PI = math.pi
+    fA, fB, fC, fN = fv(A), fv(B), fv(C), fv(N)
+    u, w = fsub(fA, fB), fsub(fC, fB)
+    ctx.label("class=" + str(case.get("cls")), "scale=2^%s" % case.get("scale_exp"), "form=" + form, "planar" if case.get("flat") is not None else "spatial")
+    if not all(Fr(float(x)) == x for x in u + w):
+        ctx.label("differences=inexact")               # not generated: the references below assume exact differences
+        return
+    nu, nw = fdot(u, u), fdot(w, w)
+    S = fcross(u, w)
+    c2 = fdot(S, S)
+    if nu == 0 or nw == 0 or c2 == 0:
+        ctx.label("corner=exactly-degenerate")         # the universal laws of exactly degenerate corners are in angle_laws
+        return
+    dotv = fdot(u, w)
+    sin = fsqrt(c2 / (nu * nw))
+    theta = math.atan2(fsqrt(c2), float(dotv))         # both arguments correct to an ulp
+    off = theta if dotv > 0 else PI - theta
+    ctx.label("corner=near-0" if dotv > 0 else "corner=near-pi", "offset~1e-%d" % min(15, max(0, int(-math.log10(max(off, 1e-300))))))
+    if off <= 1e-6:
+        ctx.nontrivial()
+    if off <= 1e-10:
+        ctx.label("flat-within-1e-10")
+    uf, wf = [float(x) for x in u], [float(x) for x in w]
+    TA = K_ANG * EPS
+
+    def scalar(sig, x, what, lo=None, hi=None):
+        g = real(x)
+        ok = g is not None and math.isfinite(g) and (lo is None or lo <= g <= hi)
+        return g if ctx.check(ok, sig, f"{what} = {x!r}" + ("" if lo is None else f" is not a real number of [{lo},{hi}]")) else None
+
+    # ---- unsigned angles: range, symmetry, value
+    g = None
+    ok, t = gcall(ctx, "angle_3pts", geom.angle_3pts, V(A), V(B), V(C))
+    ok2, t2 = gcall(ctx, "angle_3pts", geom.angle_3pts, V(C), V(B), V(A))
+    if ok and ok2:
+        g, g2 = scalar("angle_3pts:range", t, f"angle_3pts({A},{B},{C})", 0.0, PI), scalar("angle_3pts:range", t2, f"angle_3pts({C},{B},{A})", 0.0, PI)
+        if g is not None and g2 is not None:
+            ctx.check(abs(g - g2) <= TA, "angle_3pts:symmetric", f"angle_3pts({A},{B},{C}) = {g!r} but angle_3pts({C},{B},{A}) = {g2!r}")
+            if not ctx.check(abs(g - theta) <= TA, "angle_3pts:value",
+                             f"angle_3pts({A},{B},{C}) = {g!r}, exact angle {theta!r} (off {'0' if dotv > 0 else 'pi'} by {off!r}); difference {abs(g - theta)!r} > {TA!r}"):
+                g = None
+    ok, a3 = gcall(ctx, "angle_2vec3D", geom.angle_2vec3D, V(uf), V(wf))
+    ok2, a3b = gcall(ctx, "angle_2vec3D", geom.angle_2vec3D, V(wf), V(uf))
+    if ok and ok2:
+        h, h2 = scalar("angle_2vec3D:range", a3, f"angle_2vec3D({uf},{wf})", 0.0, PI), scalar("angle_2vec3D:range", a3b, f"angle_2vec3D({wf},{uf})", 0.0, PI)
+        if h is not None and h2 is not None:
+            ctx.check(abs(h - h2) <= TA, "angle_2vec3D:symmetric", f"angle_2vec3D({uf},{wf}) = {h!r}, swapped {h2!r}")
+            ctx.check(abs(h - theta) <= TA, "angle_2vec3D:value", f"angle_2vec3D({uf},{wf}) = {h!r}, exact angle {theta!r}; difference {abs(h - theta)!r} > {TA!r}")
+
+    # ---- cotangent = cos/sin of the exact corner = reciprocal tangent of the angle
+    rel = K_COT * EPS / sin
+    if rel <= 0.25:
+        cref = float(dotv) / fsqrt(c2)
+        for (P, Q, R_) in ((A, B, C), (C, B, A)):
+            ok, ct = gcall(ctx, "cotan", geom.cotan, V(P), V(Q), V(R_))
+            if not ok:
+                continue
+            gc = scalar("cotan:type", ct, f"cotan({P},{Q},{R_})")
+            if gc is None:
+                continue
+            if ctx.check(abs(gc - cref) <= rel * abs(cref), "cotan:value",
+                         f"cotan({P},{Q},{R_}) = {gc!r}, exact cos/sin = {cref!r} (angle off {'0' if dotv > 0 else 'pi'} by {off!r}): relative error {abs(gc - cref) / abs(cref)!r} > {rel!r}") and g is not None:
+                rt = 1.0 / math.tan(g)
+                ctx.check(abs(gc - rt) <= 2 * rel * abs(gc), "cotan:reciprocal-tangent",
+                          f"cotan({P},{Q},{R_}) = {gc!r} but 1/tan(angle_3pts) = {rt!r} with angle_3pts = {g!r}: relative difference {abs(gc - rt) / abs(gc)!r} > {2 * rel!r}")
+    else:
+        ctx.label("cotan=beyond-resolution")
+
+    # ---- signed angles about N: range, antisymmetry, value, orientation
+    nn = fdot(fN, fN)
+    sn = fdot(S, fN)
+    ok, s12 = gcall(ctx, "signed_angle_2vec3D", geom.signed_angle_2vec3D, V(uf), V(wf), V(N))
+    ok2, s21 = gcall(ctx, "signed_angle_2vec3D", geom.signed_angle_2vec3D, V(wf), V(uf), V(N))
+    if ok and ok2:
+        gs12 = scalar("signed_angle_2vec3D:range", s12, f"signed_angle_2vec3D({uf},{wf},{N})", -PI, PI)
+        gs21 = scalar("signed_angle_2vec3D:range", s21, f"signed_angle_2vec3D({wf},{uf},{N})", -PI, PI)
+        # the orientation (V1 x V2).N is decided in floating point when it exceeds the rounding of the cross product, 64 eps |V1||V2||N|
+        decided = nn > 0 and sn * sn >= Fr(64 * EPS) ** 2 * nu * nw * nn
+        ctx.label("signed=decided" if decided else "signed=undecided")
+        if decided and gs12 is not None and gs21 is not None:
+            ctx.check(abs(gs12 + gs21) <= TA, "signed_angle_2vec3D:antisymmetric", f"signed_angle_2vec3D({uf},{wf},{N}) = {gs12!r}, swapped = {gs21!r}")
+            ctx.check(abs(abs(gs12) - theta) <= TA and (gs12 > 0) == (sn > 0), "signed_angle_2vec3D:value",
+                      f"signed_angle_2vec3D({uf},{wf},{N}) = {gs12!r}, exact unsigned angle {theta!r}, sign of (V1xV2).N = {'+' if sn > 0 else '-'}")
+            ok, sflip = gcall(ctx, "signed_angle_2vec3D", geom.signed_angle_2vec3D, V(uf), V(wf), V([-x for x in N]))
+            if ok and real(sflip) is not None:
+                ctx.check(abs(real(sflip) + gs12) <= TA, "signed_angle_2vec3D:normal-flip", f"flipping N does not negate the angle: {gs12!r} vs {sflip!r}")
+            ok, s3 = gcall(ctx, "signed_angle_3pts", geom.signed_angle_3pts, V(A), V(B), V(C), V(N))
+            if ok:
+                g3 = scalar("signed_angle_3pts:range", s3, f"signed_angle_3pts({A},{B},{C},{N})", -PI, PI)
+                if g3 is not None:
+                    ctx.check(abs(g3 - gs12) <= TA, "signed_angle_3pts", f"signed_angle_3pts({A},{B},{C},{N}) = {g3!r} but signed_angle_2vec3D(A-B,C-B,N) = {gs12!r}")
+
+    # ---- planar vectors
+    flat = case.get("flat")
+    if flat is not None and u[flat] == 0 and w[flat] == 0:
+        ax = [i for i in range(3) if i != flat]
+        u2, w2 = [uf[i] for i in ax], [wf[i] for i in ax]
+        ok, a2 = gcall(ctx, "angle_2vec2D", geom.angle_2vec2D, V(u2), V(w2))
+        ok2, a2b = gcall(ctx, "angle_2vec2D", geom.angle_2vec2D, V(w2), V(u2))
+        if ok and ok2:
+            p, p2 = scalar("angle_2vec2D:type", a2, f"angle_2vec2D({u2},{w2})"), scalar("angle_2vec2D:type", a2b, f"angle_2vec2D({w2},{u2})")
+            if p is not None and p2 is not None:
+                ctx.check(abs(p + p2) <= TA, "angle_2vec2D:antisymmetric", f"angle_2vec2D({u2},{w2}) = {p!r}, swapped {p2!r}")
+                ref = math.atan2(float(fdet2(fv(u2), fv(w2))), float(fdot(fv(u2), fv(w2))))
+                k = round((p - ref) / (2 * PI))
+                ctx.check(abs(p - ref - 2 * PI * k) <= TA, "angle_2vec2D:value", f"angle_2vec2D({u2},{w2}) = {p!r}, exact signed angle {ref!r} (mod 2pi); difference {abs(p - ref - 2 * PI * k)!r} > {TA!r}")
+
+        # two lines of these directions through two nearby points: near-parallel, not parallel
+        p1, p2 = case.get("P1"), case.get("P2")
+        if p1 is not None and p2 is not None:
+            f1, f2, g1, g2 = fv(p1), fv(p2), fv(u2), fv(w2)
+            det = fdet2(g1, g2)
+            if sin >= 1e-10:                                           # see ASSUMPTIONS (parallelism threshold of intersect_2lines2D)
+                ctx.label("lines=near-parallel")
+                ok, X = gcall(ctx, "intersect_2lines2D", geom.intersect_2lines2D, *[make(z, "vec") for z in (p1, u2, p2, w2)])      # documented for Vec
+                if ok and ctx.check(X is not None, "intersect_2lines2D:not-parallel",
+                                    f"lines ({p1},{u2}) ({p2},{w2}) gave None but the sine of their angle is {sin!r}, the lines meet"):
+                    xv = vec_of(X, 2)
+                    if ctx.check(xv is not None and bool(np.all(np.isfinite(xv))), "intersect_2lines2D:type", f"lines ({p1},{u2}) ({p2},{w2}): result {X!r} is not a 2D point"):
+                        tt = fdet2(fsub(f2, f1), g2) / det
+                        Xr = [f1[i] + tt * g1[i] for i in range(2)]
+                        reach = sum(fsqrt(fdot(z, z)) for z in (f1, f2, fsub(Xr, f1), fsub(Xr, f2)))
+                        ltol = K_CC * EPS * reach / sin
+                        err = fsqrt(fdot(fsub(fv(xv), Xr), fsub(fv(xv), Xr)))
+                        ctx.check(err <= ltol, "intersect_2lines2D:value",
+                                  f"lines ({p1},{u2}) ({p2},{w2}): {xv.tolist()}, exact intersection {[float(z) for z in Xr]}: distance {err!r} > {ltol!r} (sine of the angle {sin!r})")
+            else:
+                ctx.label("lines=not-asserted(sine<1e-10)")
+
+    # ---- area of the thin triangle ABC: |AB x AC| / 2, the cross product cancels to eps * (product of two edge lengths)
+    P3 = [fA, fB, fC]
+    Lmax2 = float(max(fdot(fsub(P3[(i + 1) % 3], P3[i]), fsub(P3[(i + 1) % 3], P3[i])) for i in range(3)))
+    ok, ar = gcall(ctx, "triangle_area", geom.triangle_area, V(A), V(B), V(C))
+    if ok:
+        ga = scalar("triangle_area:type", ar, f"triangle_area({A},{B},{C})")
+        aref = fsqrt(c2) / 2
+        if ga is not None:
+            ctx.check(abs(ga - aref) <= K_COT * EPS * Lmax2, "triangle_area:value",
+                      f"triangle_area({A},{B},{C}) = {ga!r}, exact |AB x AC|/2 = {aref!r}: difference {abs(ga - aref)!r} > {K_COT * EPS * Lmax2!r} (longest edge squared {Lmax2!r})")
+
+    # ---- circumcentre of the thin triangle ABC against the exact (rational) circumcentre
+    sins = []
+    for i in range(3):
+        a_, b_ = fsub(P3[(i + 1) % 3], P3[i]), fsub(P3[(i + 2) % 3], P3[i])
+        x_ = fcross(a_, b_)
+        sins.append(fsqrt(fdot(x_, x_) / (fdot(a_, a_) * fdot(b_, b_))))
+    smin = min(sins)
+    if smin < 1e-10:
+        ctx.label("circumcentre=not-asserted(sine<1e-10)")          # see ASSUMPTIONS (parallelism threshold of intersect_2lines2D)
+        return
+    ctx.label("circumcentre=thin<=1e-6" if smin <= 1e-6 else "circumcentre=thin")
+    a_, b_ = fsub(fB, fA), fsub(fC, fA)
+    x_ = fcross(a_, b_)
+    x2, na, nb = fdot(x_, x_), fdot(a_, a_), fdot(b_, b_)
+    t_ = fcross([na * bb - nb * aa for aa, bb in zip(a_, b_)], x_)
+    O = [fA[i] + t_[i] / (2 * x2) for i in range(3)]                # A + ((|a|^2 b - |b|^2 a) x (a x b)) / (2 |a x b|^2)
+    R_ref = fsqrt(fdot(fsub(O, fA), fsub(O, fA)))
+    Smag = float(max(abs(z) for p_ in P3 for z in p_))
+    tol = K_CC * EPS * (R_ref + Smag) / smin
+    Of = [float(z) for z in O]
+    pts = {"A": A, "B": B, "C": C}
+    for perm in ("ABC", "BCA", "CAB", "ACB"):
+        ok, cc = gcall(ctx, "circumcenter", geom.circumcenter, *[V(pts[k]) for k in perm])
+        if not ok:
+            continue
+        cv = vec_of(cc, 3)
+        if not ctx.check(cv is not None and bool(np.all(np.isfinite(cv))), "circumcenter:type", f"circumcenter({[pts[k] for k in perm]}) = {cc!r}"):
+            continue
+        fcv = fv(cv)
+        dist = [fsqrt(fdot(fsub(fcv, p_), fsub(fcv, p_))) for p_ in P3]
+        if not ctx.check(max(dist) - min(dist) <= 2 * tol, "circumcenter:equidistant",
+                         f"circumcenter({[pts[k] for k in perm]}) = {cv.tolist()}: distances to the three points {dist} differ by {max(dist) - min(dist)!r} > {2 * tol!r} "
+                         f"(circumradius {R_ref!r}, smallest sine {smin!r})"):
+            continue
+        err = fsqrt(fdot(fsub(fcv, O), fsub(fcv, O)))
+        ctx.check(err <= tol, "circumcenter:value", f"circumcenter({[pts[k] for k in perm]}) = {cv.tolist()}, exact circumcentre {Of}: distance {err!r} > {tol!r} (circumradius {R_ref!r}, smallest sine {smin!r})")
+
+
 # =============================================================================================== 5. rotations
 ANGLES = st.one_of(st.floats(min_value=-10, max_value=10, allow_nan=False, width=64), st.integers(-7, 7),
                    st.integers(-8, 8).map(lambda k: k * math.pi / 4),
@@ -1191,7 +1467,8 @@ def rotation_case(draw):
     axis = draw(st.one_of(v3, st.sampled_from([[0.0, 0.0, 1.0], [0.0, 0.0, -1.0], [0.0, 0.0, -3.0], [1.0, 0.0, 0.0], [0.0, 0.0, 0.0], [0.0, 2.0, 0.0],
                                                      [0.0, 0.0, 1.0000005], [0.6, 0.8000004, 0.0], [0.0, 0.9999995, 0.0]])))
     rv = st.lists(st.floats(-3, 3, allow_nan=False, width=64), min_size=3, max_size=3)
-    return {"mode": mode, "v": draw(v3), "w": draw(v3), "axis": axis, "a": draw(ANGLES), "b": draw(ANGLES), "v2": draw(vec_st(mode, 2)),
+    return {"mode": mode, "v": draw(v3), "w": draw(v3), "axis": axis, "axis_scale_exp": draw(st.sampled_from([0] * 5 + [-30, -70, 40])),
+            "a": draw(ANGLES), "b": draw(ANGLES), "v2": draw(vec_st(mode, 2)),
             "form": draw(st.sampled_from(FORMS)), "Ra": draw(rv), "Rb": draw(rv)}
 
 
@@ -1235,9 +1512,15 @@ def fn_rotation(case, ctx):
 
     # ---- 3D about an axis
     nrm = float(np.linalg.norm(nax))
+    axis0, nax0, nrm0 = axis, nax, nrm
     if nrm >= 1e-3:
         ctx.label("axis=ok")
         ctx.nontrivial(abs(a) > 1e-6)
+        if case.get("axis_scale_exp"):                  # the rotation depends on the direction of the axis only: any power of two of it
+            axis = [x * 2.0 ** case["axis_scale_exp"] for x in axis]
+            nax = np.array(axis, float)
+            nrm = float(np.linalg.norm(nax))
+            ctx.label("axis-length=2^%d" % case["axis_scale_exp"])
 
         def R(x, ang):
             ok, r = gcall(ctx, "rotate_around_axis", rot.rotate_around_axis, make(list(x), form) if not isinstance(x, np.ndarray) else x, make(axis, form), ang)
@@ -1270,6 +1553,7 @@ def fn_rotation(case, ctx):
         ctx.label("axis=zero")
 
     # ---- rotation taking Z to a direction
+    axis, nax, nrm = axis0, nax0, nrm0
     if nrm >= 1e-3:
         d = nax / nrm
         anti = d[2] < 0 and math.hypot(d[0], d[1]) <= 1e-6
@@ -1295,13 +1579,32 @@ def fn_rotation(case, ctx):
 
 
 # =============================================================================================== 6. scalar maths
+TWO_PI_F = Fr(2 * math.pi)                                   # the float 2*pi, exactly
+# 2*pi - float(2*pi) from 50 digits of pi: the period every fmod / remainder based reduction really uses differs from 2*pi by this much
+TWO_PI_DELTA = float(2 * Fr("3.14159265358979323846264338327950288419716939937510") - TWO_PI_F)
+
+
+def mod_2pi_defect(x):
+    """(k, x - k*float(2pi)) for the integer k nearest to x/2pi; x a Fraction"""
+    k = round(x / TWO_PI_F)
+    return k, x - k * TWO_PI_F
+
+
 @st.composite
 def maths_case(draw):
-    ang = st.one_of(st.floats(min_value=-1e4, max_value=1e4, allow_nan=False, width=64), st.integers(-12, 12).map(lambda k: k * math.pi / 2),
-                    st.integers(-12, 12).map(lambda k: k * math.pi), st.sampled_from([0.0, -0.0, 1e-20, -1e-20, math.pi, -math.pi, 2 * math.pi, 3.141592653589794, 3.1415926535897927]))
+    small = st.one_of(st.floats(min_value=-1e4, max_value=1e4, allow_nan=False, width=64), st.integers(-12, 12).map(lambda k: k * math.pi / 2),
+                      st.integers(-12, 12).map(lambda k: k * math.pi), st.sampled_from([0.0, -0.0, 1e-20, -1e-20, math.pi, -math.pi, 2 * math.pi, 3.141592653589794, 3.1415926535897927]))
+    # magnitudes 1e4 .. 1e12 (log-uniform), multiples of pi/2 up to 1e12 and their float neighbours
+    big = st.one_of(st.tuples(st.floats(1.0, 10.0), st.integers(4, 11), st.sampled_from([1.0, -1.0])).map(lambda t: t[2] * t[0] * 10.0 ** t[1]),
+                    st.tuples(st.integers(-10 ** 6, 10 ** 6), st.sampled_from([math.pi, 2 * math.pi, math.pi / 2])).map(lambda t: t[0] * t[1]),
+                    st.tuples(st.integers(-10 ** 11, 10 ** 11), st.sampled_from([-1, 0, 1])).map(lambda t: float(np.nextafter(t[0] * 2 * math.pi, t[1] * math.inf) if t[1] else t[0] * 2 * math.pi)))
+    ang = st.one_of(small, small, big)
     cf = st.one_of(st.integers(-5, 5).map(float), st.floats(-100, 100, allow_nan=False, width=64))
     qi = st.integers(-9, 9).map(float)
-    return {"a": draw(ang), "b": draw(ang), "c": [draw(cf), draw(cf)], "n": draw(st.integers(1, 9)),
+    a = draw(ang)
+    # second angle: independent, or close to the first one (a large pair with a small difference)
+    b = draw(ang) if draw(st.integers(0, 3)) else a + draw(st.one_of(st.floats(-7.0, 7.0), st.sampled_from([0.0, math.pi, -math.pi, 1e-9])))
+    return {"a": a, "b": b, "c": [draw(cf), draw(cf)], "n": draw(st.integers(1, 9)),
             "quad": [draw(qi), draw(qi), draw(qi)], "quadf": [draw(cf), draw(cf), draw(cf)],
             "ai": draw(st.integers(-60, 60)), "bi": draw(st.integers(-60, 60)), "ints": draw(st.booleans())}
 
@@ -1311,15 +1614,18 @@ def fn_maths(case, ctx):
     PI = math.pi
     a, b = case["a"], case["b"]
 
-    def congruent(r, x):
-        k = round((x - r) / (2 * PI))
-        return abs(x - r - 2 * PI * k) <= 1e-12 * max(1.0, abs(x)) * 4
-
+    # Congruence is judged in exact arithmetic. A reduction by fmod / remainder is exact modulo the FLOAT 2*pi, one that reduces modulo
+    # the real 2*pi (e.g. through sin / cos) differs from it by k * (2pi - float(2pi)) = 0.18 eps |x|, less than half an ulp of the
+    # argument: both are accepted. On top of that: the roundings a correct evaluation commits (a - b, +pi, -pi, -2pi), each half an ulp
+    # of its result.
     ok, r = gcall(ctx, "principal_angle", maths.principal_angle, a)
     if ok:
         g = real(r)
         if ctx.check(g is not None and -PI <= g <= PI, "principal_angle:range", f"principal_angle({a!r}) = {r!r} not in [-pi,pi]"):
-            ctx.check(congruent(g, a), "principal_angle:congruent", f"principal_angle({a!r}) = {g!r} is not congruent to the input mod 2pi")
+            k, defect = mod_2pi_defect(F(a) - F(g))
+            tol = 8 * EPS * PI + abs(k) * abs(TWO_PI_DELTA)
+            ctx.check(abs(defect) <= tol, "principal_angle:congruent",
+                      f"principal_angle({a!r}) = {g!r} is not congruent to the input mod 2pi: input - result - {k}*2pi = {float(defect)!r}, more than {tol!r}")
             ok, r2 = gcall(ctx, "principal_angle", maths.principal_angle, g)
             if ok:
                 ctx.check(real(r2) is not None and (abs(real(r2) - g) <= 1e-12 or abs(abs(real(r2) - g) - 2 * PI) <= 1e-12), "principal_angle:idempotent", f"principal_angle({g!r}) = {r2!r}")
@@ -1327,9 +1633,15 @@ def fn_maths(case, ctx):
     if ok:
         g = real(r)
         if ctx.check(g is not None and -PI <= g <= PI, "angle_diff:range", f"angle_diff({a!r},{b!r}) = {r!r} not in [-pi,pi]"):
-            ctx.check(abs(a - b - g - 2 * PI * round((a - b - g) / (2 * PI))) <= 4e-12 * max(1.0, abs(a), abs(b)), "angle_diff:congruent",
-                      f"angle_diff({a!r},{b!r}) = {g!r} is not congruent to a-b = {a - b!r} mod 2pi")
-    ctx.label("angle=large" if abs(a) > 100 else "angle=small")
+            x = F(a) - F(b)
+            k, defect = mod_2pi_defect(x - F(g))
+            tol = 4 * EPS * (abs(float(x)) + 2 * PI) + abs(k) * abs(TWO_PI_DELTA)
+            ctx.check(abs(defect) <= tol, "angle_diff:congruent",
+                      f"angle_diff({a!r},{b!r}) = {g!r} is not congruent to a-b = {float(x)!r} mod 2pi: a - b - result - {k}*2pi = {float(defect)!r}, more than {tol!r}")
+    m = max(abs(a), abs(b))
+    ctx.label("angle=small" if m <= 100 else "angle=large" if m <= 1e4 else "angle=1e4..1e8" if m <= 1e8 else "angle=1e8..1e12")
+    if m > 1e4 and abs(a - b) <= 10:
+        ctx.label("angle_diff=large-close-pair")
     # integer-valued arguments given as Python ints behave like the same floats
     ai, bi = case.get("ai", 0), case.get("bi", 0)
     for nm, f, ia, fa_ in (("principal_angle", maths.principal_angle, (ai,), (float(ai),)), ("angle_diff", maths.angle_diff, (ai, bi), (float(ai), float(bi)))):
@@ -1761,6 +2073,7 @@ SUBCHECKS = [
     SubCheck("vector_laws", vector_case(), fn_vector, quick=400, thorough=1500),
     SubCheck("shape_laws", shape_case(), fn_shape, quick=500, thorough=2000),
     SubCheck("angle_laws", angle_case(), fn_angle, quick=500, thorough=2000),
+    SubCheck("sharp_laws", sharp_case(), fn_sharp, quick=400, thorough=1500),
     SubCheck("rotation_laws", rotation_case(), fn_rotation, quick=300, thorough=1200),
     SubCheck("maths_laws", maths_case(), fn_maths, quick=500, thorough=2000),
     SubCheck("side_effects", machine_case(), fn_machine, quick=800, thorough=3000),
